@@ -33,7 +33,9 @@ Violations(e) ==
                           ELSE IF e.args # Top(stack).args THEN {"mock-args-in-order"} ELSE {}
     [] e.e = "panic"   -> IF sc.expect = "panic" THEN {} ELSE {"unexpected-panic"}
     [] e.e = "avail"   -> IF e.probe \in DOMAIN sc.avail /\ e.has # sc.avail[e.probe] THEN {"available-iff"} ELSE {}
-    [] e.e = "alloc"   -> IF sc.allocpair # "" /\ sc.allocpair \in DOMAIN allocs /\ allocs[sc.allocpair] # e.n THEN {"same-allocations"} ELSE {}
+    [] e.e = "alloc"   -> IF sc.allocpair # "" /\ sc.allocpair \in DOMAIN allocs /\ allocs[sc.allocpair] # e.allocs THEN {"same-allocations"} ELSE {}
+    \* C14: generated tokens contain no trait object / boxing unless dynamic dispatch was requested
+    [] e.e = "genscan" -> IF ~e.requested /\ (e.dyn \/ e.box) THEN {"no-trait-objects"} ELSE {}
     [] e.e = "end"     -> (IF sc.expect = "ok" /\ stack # <<>> THEN {"unfinished-call"} ELSE {})
                           \cup (IF sc.expect = "panic" /\ ~e.panicked THEN {"expected-panic"} ELSE {})
                           \cup (IF sc.pair # "" /\ sc.pair \in DOMAIN results /\ results[sc.pair] # e.result THEN {"same-result-as-direct-call"} ELSE {})
@@ -45,7 +47,7 @@ Apply(e) ==
     [] e.e = "exit"  -> stack' = DoExit(stack, e) /\ UNCHANGED <<results, allocs>>
     [] e.e = "ret"   -> stack' = DoRet(stack, e) /\ UNCHANGED <<results, allocs>>
     [] e.e = "dropped" -> stack' = DoRet(stack, e) /\ UNCHANGED <<results, allocs>>      \* the call is over: its future is gone
-    [] e.e = "alloc" -> /\ allocs' = IF sc.allocpair # "" /\ sc.allocpair \notin DOMAIN allocs THEN allocs @@ (sc.allocpair :> e.n) ELSE allocs
+    [] e.e = "alloc" -> /\ allocs' = IF sc.allocpair # "" /\ sc.allocpair \notin DOMAIN allocs THEN allocs @@ (sc.allocpair :> e.allocs) ELSE allocs
                         /\ UNCHANGED <<stack, results>>
     [] e.e = "end"   -> /\ results' = IF sc.pair # "" /\ sc.pair \notin DOMAIN results THEN results @@ (sc.pair :> e.result) ELSE results
                         /\ UNCHANGED <<stack, allocs>>
